@@ -279,6 +279,10 @@ def run(tier):
                 LL + "LicenseParagraph::name": lambda I, a, st, n: [(OK, some(symstr.lit(names[I.deref_val(st, a[0])[2]])), st)],
                 "<T as core::convert::Into<U>>::into": lambda I, a, st, n: [(OK, ("abs", "license-of", I.deref_val(st, a[0])[2]), st)] if I.deref_val(st, a[0])[0] == "abs" and I.deref_val(st, a[0])[1] == "lp" else None,
             }
+            # the same conversion spelt License::from(p) / .map(License::from)
+            for fk in ("<debian_copyright::License as core::convert::From<debian_copyright::lossless::LicenseParagraph>>::from", "core::convert::From::from",
+                       "debian_copyright::lossless::<impl core::convert::From<debian_copyright::lossless::LicenseParagraph> for debian_copyright::License>::from"):
+                mod.stub[fk] = mod.stub["<T as core::convert::Into<U>>::into"]
             res = I.inline(F.fn(LL + "Copyright::find_license_by_name"), [("abs", "c"), symstr.lit("X")], hirai.State(depth=0))
             mod.stub = {}
             got = []
